@@ -194,16 +194,16 @@ Definition step (w : world) (o : op) : world * list (list Z) :=
       (set_rank w rank (mkrs st' (rs_slots rs)), [[8; ln; rank; rc]])
   | OInqNumrecs ln rank => (w, [[9; ln; rank; st_numrecs (rs_nb (get_rank w rank))]])
   | OPut ln coll rank g start count stride data =>
+      (* SPEC of a blocking put: the k-th byte of the stream lands on the k-th addressed byte *)
       let offs := spec_offsets g start count stride in
-      let file' := write_chunks (w_file w) (coalesce_list (map (fun o => (o, g_xsz g)) offs)) data in
       let pos := flat_map (fun o => zrange o (g_xsz g)) offs in
+      let m := fold_left (fun m p => if fst p <? w_lo w then m else PositiveMap.add (Z.to_pos (fst p - w_lo w + 1)) (snd p) m)
+                         (zip pos data) (w_map w) in
       let nr := put_newrecs g start count stride in
-      let bump := fun rs => mkrs (set_numrecs (rs_nb rs) (Z.max (st_numrecs (rs_nb rs)) nr)) (rs_slots rs) in
-      if coll then
-        let m := fold_left Z.max (map (fun rs => st_numrecs (rs_nb rs)) (w_ranks w)) nr in
-        (set_file (mkw (map (fun rs => mkrs (set_numrecs (rs_nb rs) (if g_isrec g then m else st_numrecs (rs_nb rs))) (rs_slots rs)) (w_ranks w))
-                       (w_file w) (w_hint w) (w_fmt w) (w_lo w) (w_map w)) file' pos, [])
-      else (set_file (set_rank w rank (bump (get_rank w rank))) file' pos, [])
+      let mx := fold_left Z.max (map (fun rs => st_numrecs (rs_nb rs)) (w_ranks w)) nr in
+      let ranks' := if coll then map (fun rs => mkrs (set_numrecs (rs_nb rs) (if g_isrec g then mx else st_numrecs (rs_nb rs))) (rs_slots rs)) (w_ranks w)
+                    else zupd (w_ranks w) rank (let rs := get_rank w rank in mkrs (set_numrecs (rs_nb rs) (Z.max (st_numrecs (rs_nb rs)) nr)) (rs_slots rs)) in
+      (mkw ranks' (map_disk (w_lo w) m) (w_hint w) (w_fmt w) (w_lo w) m, [])
   | OGet ln rank g start count stride =>
       let e := match g_shape g with
                | [] => NC_NOERR
